@@ -52,6 +52,61 @@ pub struct Spec {
     pub trailing: Option<u8>,
 }
 
+/// Objects that have a member whose name contains a lower-case ASCII letter (pre-order).
+fn sibling_sites(j: &J, path: &mut Vec<usize>, out: &mut Vec<(Vec<usize>, usize)>) {
+    match j {
+        J::Obj(o) => {
+            for (i, (k, v)) in o.iter().enumerate() {
+                if k.chars().any(|c| c.is_ascii_lowercase()) && !o.iter().any(|(k2, _)| *k2 == k.to_uppercase()) {
+                    out.push((path.clone(), i));
+                }
+                path.push(i);
+                sibling_sites(v, path, out);
+                path.pop();
+            }
+        }
+        J::Arr(a) => {
+            for (i, v) in a.iter().enumerate() {
+                path.push(i);
+                sibling_sites(v, path, out);
+                path.pop();
+            }
+        }
+        _ => {}
+    }
+}
+
+/// Right after one member, insert a member whose name differs in letter case only (not a duplicate: another name)
+/// and whose string value differs in its first character. Document order is then not the sorted order.
+fn add_case_sibling(doc: &mut J, sel: u16) {
+    let mut sites = vec![];
+    sibling_sites(doc, &mut vec![], &mut sites);
+    if sites.is_empty() {
+        return;
+    }
+    let (path, i) = sites[(sel as usize * sites.len()) >> 16].clone();
+    let mut cur = doc;
+    for step in path {
+        cur = match cur {
+            J::Obj(o) => &mut o[step].1,
+            J::Arr(a) => &mut a[step],
+            _ => return,
+        };
+    }
+    if let J::Obj(o) = cur {
+        let (k, v) = o[i].clone();
+        let v2 = match v {
+            J::Str(s) if !s.is_empty() => {
+                let mut c: Vec<char> = s.chars().collect();
+                c[0] = if c[0] == 'a' { 'b' } else { 'a' };
+                J::Str(c.into_iter().collect())
+            }
+            other => other,
+        };
+        o.insert(i + 1, (k.to_uppercase(), v2));
+    }
+}
+
 const TRAILING: &[&str] = &["x", "]", ",", "null", " {}", "\n[]", "0", "\"\"", "}", " \t\n", "//c", "\u{0}"];
 
 /// A reader that hands out at most `chunk` bytes per call.
@@ -203,13 +258,17 @@ impl Property for C17 {
         tier.pick(400_000, 2_000_000)
     }
     fn strategy(_tier: Tier) -> BoxedStrategy<Spec> {
-        (valid_doc(), proptest::option::weighted(0.3, tree_edit()), entropy(), 1u8..8, proptest::option::weighted(0.05, any::<u16>()), proptest::option::weighted(0.12, any::<u8>()))
-            .prop_map(|((kind, v), edit, spell, chunk, truncate, trailing)| {
+        (valid_doc(), proptest::option::weighted(0.3, tree_edit()), entropy(), 1u8..8, proptest::option::weighted(0.05, any::<u16>()), proptest::option::weighted(0.12, any::<u8>()), proptest::option::weighted(0.12, any::<u16>()))
+            .prop_map(|((kind, v), edit, spell, chunk, truncate, trailing, sibling)| {
                 let v = match edit {
                     Some(e) => apply_edit(&v, &e).map(|(v, _)| v).unwrap_or(v),
                     None => v,
                 };
-                Spec { kind, doc: J::from_value(&v), spell, chunk, truncate, trailing }
+                let mut doc = J::from_value(&v);
+                if let Some(sel) = sibling {
+                    add_case_sibling(&mut doc, sel);
+                }
+                Spec { kind, doc, spell, chunk, truncate, trailing }
             })
             .boxed()
     }
